@@ -19,12 +19,13 @@ func atoi64(s string, def int64) int64 {
 }
 
 var commands = map[string]func(args map[string]string){
-	"buffer":   cmdBuffer,
-	"channel":  cmdChannel,
-	"notifier": cmdNotifier,
-	"callable": cmdCallable,
-	"workers":  cmdWorkers,
-	"worker":   cmdWorker,
+	"buffer":    cmdBuffer,
+	"channel":   cmdChannel,
+	"notifier":  cmdNotifier,
+	"callable":  cmdCallable,
+	"workers":   cmdWorkers,
+	"worker":    cmdWorker,
+	"exclusive": cmdExclusive,
 }
 
 // usage: harness <driver> -k v -k v ...
